@@ -44,7 +44,28 @@ def apply_step(sp, st):
     raise KeyError(k)
 
 
+UNIT_TABLE_UNITS = ['flam', 'fnu', 'jy', 'photnu', 'stmag', 'abmag']
+
+
+def unit_table_call(case):
+    """a table given as a flux Quantity together with z at construction: its values are flux densities at the observed
+    (redshifted) wavelengths of the knots"""
+    from synphot import SourceSpectrum
+    from synphot.models import Empirical1D
+
+    def f():
+        unit = O.astropy_flux_unit(case['unit_name'])
+        p = np.array([O.fl(x) for x in case['pts']])
+        v = np.array([O.fl(x) for x in case['vals']])
+        z = O.fl(case['z'])
+        sp = SourceSpectrum(Empirical1D, points=p, lookup_table=v * unit, z=z, z_type=case['ztype'])
+        return {'readback': sp(p * (1 + z), flux_unit=unit).value}
+    return guarded(f)
+
+
 def impl_call(case):
+    if case['op'] == 'unit_table':
+        return unit_table_call(case)
     sp = O.eval_expr(case['prim'])
     outs = []
     twins = {}
@@ -87,6 +108,8 @@ def impl_call(case):
 
 
 def model_case(case):
+    if case['op'] == 'unit_table':
+        return None         # oracle only (the conversion itself is C15's model)
     return {'op': 'z_history', 'const': case['const'], 'thr': q(O.THR), 'prim': case['prim'], 'steps': case['steps']}
 
 
@@ -111,6 +134,24 @@ def compare(case, o, m):
 
 # ------------------------------------------------------------------ oracle
 def oracle(rep, case, out):
+    if case['op'] == 'unit_table':
+        if 'err' in out:
+            rep.oracle_fail('unit_table:%s' % out['err'], 'construction / readback raised', case, out)
+            return
+        v = np.array([O.fl(x) for x in case['vals']])
+        z = O.fl(case['z'])
+        got = np.asarray(out['ok']['readback'])
+        if case['unit_name'] in ('stmag', 'abmag'):
+            want = v + (2.5 * math.log10(1 + z) if case['ztype'] == 'conserve_flux' else 0.0)
+            bad = np.abs(got - want) > 1e-9
+        else:
+            want = v / (1 + z) if case['ztype'] == 'conserve_flux' else v
+            bad = np.abs(got - want) > 1e-9 * np.abs(want)
+        if bad.any():
+            rep.oracle_fail('unit_table:%s:readback:z%s' % (case['unit_name'], '<0' if z < 0 else '>0' if z > 0 else '=0'),
+                            'a table given in %s with z=%s reads back as %r at its observed knots, expected %r'
+                            % (case['unit_name'], case['z'], got.tolist()[:4], want.tolist()[:4]), case, out)
+        return
     steps, outs = case['steps'], out['ok']
     for i, tw in (out.get('_extra', {}).get('twins') or {}).items():
         o = outs[int(i)]
@@ -270,15 +311,27 @@ def run(rep):
     for c in cases:
         c['const'] = K
     cases += scripted_cases(rng, K)
+    for _ in range(3000 if thorough else 300):
+        pts = sorted({O.dy(rng, 1000, 9000, 2) for _ in range(rng.randint(2, 6))})
+        if len(pts) < 2:
+            continue
+        u = rng.choice(UNIT_TABLE_UNITS)
+        e = F(2) ** rng.randint(-60, -20)       # one brightness scale per table: neighbouring knots within a factor 16
+        m0 = O.dy(rng, 10, 28, 3)
+        vals = [m0 + O.dy(rng, 0, 2, 3) if u in ('stmag', 'abmag') else e * O.dy(rng, 0.25, 4, 3) for _ in pts]
+        cases.append({'op': 'unit_table', 'unit_name': u, 'pts': qs(pts), 'vals': qs(vals), 'z': q(rng.choice(ZS)),
+                      'ztype': rng.choice(['wavelength_only', 'conserve_flux'])})
     cases += [gen_case(rng, K, 40 if thorough else 8) for _ in range(30000 if thorough else 1500)]
     rep.rule = ('a quarter of all orderings of 2-4 assignments (two redshifts, both types) ending in a sample, from three initial states; random histories of z / z_type assignments (incl. non-real z and unknown z_type), samples, waveset and integrate '
                 'queries (<= 8 steps quick, <= 40 thorough) on SourceSpectrum objects of every leaf kind and (25%) composite sources whose operands may already be redshifted, and (15%) sources constructed from an already redshifted spectrum object, constructed with or '
                 'without redshift; z from {0, 1/8, 1/2, 1, 3, 7, 20, -1/4, -1/2, -7/8}. Non-trivial: at least one assignment step.')
 
     def nontrivial(c, o):
-        return any(s['do'].startswith('set_') for s in c['steps'])
+        return c['op'] == 'unit_table' or any(s['do'].startswith('set_') for s in c['steps'])
 
     def tags(c, o):
+        if c['op'] == 'unit_table':
+            return ['unit_table', 'unit:' + c['unit_name'], 'outcome:' + (o.get('err') or 'ok')]
         t = ['final_ztype:' + c['final'][1], 'len:%d' % min(len(c['steps']), 9), 'leaf:' + (c['prim']['leaf']['leaf'] if 'leaf' in c['prim'] else 'wrapped' if 'wrapz' in c['prim'] else 'composite')]
         return t
     core.run_cases(rep, cases, impl_call, model_case, oracle, tags_fn=tags, nontrivial_fn=nontrivial, compare_fn=compare)
